@@ -66,6 +66,8 @@ type inliner struct {
 	counter int
 	log     []string
 	changed map[*ast.File]bool
+	// identifiers of type-switch guards in the helper being rendered -> unique name
+	guardRen map[*ast.Ident]string
 }
 
 // hasDeferOrRecover reports defers / recover calls / labels-with-goto in a body (outside nested func literals).
@@ -116,7 +118,104 @@ func (in *inliner) calleeOf(call *ast.CallExpr) (*ast.FuncDecl, types.Object, as
 			return nil, nil, nil
 		}
 	}
+	// hygiene: a package-level or predeclared name the helper uses must mean the same at the call site
+	if in.shadowedAt(fd, call.Pos()) {
+		return nil, nil, nil
+	}
 	return fd, obj, recv
+}
+
+// shadowedAt: some identifier that is free in the helper's body (package-level
+// object, predeclared name, imported package) is shadowed by a different
+// object in the scope enclosing pos.
+func (in *inliner) shadowedAt(fd *ast.FuncDecl, pos token.Pos) bool {
+	pkgScope := in.pk.Types.Scope()
+	inner := pkgScope.Innermost(pos)
+	if inner == nil {
+		// file scopes are children of the package scope: find through the files
+		for i := 0; i < pkgScope.NumChildren(); i++ {
+			if c := pkgScope.Child(i); c.Contains(pos) {
+				inner = c.Innermost(pos)
+			}
+		}
+	}
+	if inner == nil {
+		return true
+	}
+	bad := false
+	ast.Inspect(fd.Body, func(n ast.Node) bool {
+		id, ok := n.(*ast.Ident)
+		if !ok || bad {
+			return !bad
+		}
+		obj := in.pk.TypesInfo.Uses[id]
+		if obj == nil {
+			return true
+		}
+		// free in the helper: declared outside the helper's own extent
+		if obj.Pos() != token.NoPos && fd.Pos() <= obj.Pos() && obj.Pos() < fd.End() {
+			return true
+		}
+		if _, isField := obj.(*types.Var); isField && obj.(*types.Var).IsField() {
+			return true
+		}
+		if f, isFn := obj.(*types.Func); isFn && f.Type().(*types.Signature).Recv() != nil {
+			return true // methods are selected, not looked up by scope
+		}
+		_, at := inner.LookupParent(id.Name, pos)
+		if at != nil && at != obj {
+			bad = true
+		}
+		return true
+	})
+	return bad
+}
+
+// localRen adds a unique name for every object the helper's body declares
+// (variables, constants, types), so that inlined locals can neither capture
+// nor be captured by names of the caller.
+func (in *inliner) localRen(fd *ast.FuncDecl, id int, ren map[types.Object]string) {
+	ast.Inspect(fd.Body, func(n ast.Node) bool {
+		idn, ok := n.(*ast.Ident)
+		if !ok || idn.Name == "_" {
+			return true
+		}
+		obj := in.pk.TypesInfo.Defs[idn]
+		if obj == nil {
+			// symbolic variable of a type switch: recorded under Implicits, all clauses share the name
+			return true
+		}
+		switch obj.(type) {
+		case *types.Var, *types.Const, *types.TypeName:
+			if _, has := ren[obj]; !has {
+				ren[obj] = fmt.Sprintf("%s_kx%d", idn.Name, id)
+			}
+		}
+		return true
+	})
+	// type switch guards `switch x := y.(type)`: the per-clause implicit objects use the guard's identifier
+	ast.Inspect(fd.Body, func(n ast.Node) bool {
+		ts, ok := n.(*ast.TypeSwitchStmt)
+		if !ok {
+			return true
+		}
+		as, ok := ts.Assign.(*ast.AssignStmt)
+		if !ok || len(as.Lhs) != 1 {
+			return true
+		}
+		guard, ok := as.Lhs[0].(*ast.Ident)
+		if !ok {
+			return true
+		}
+		nn := fmt.Sprintf("%s_kx%d", guard.Name, id)
+		in.guardRen[guard] = nn
+		for _, cl := range ts.Body.List {
+			if obj := in.pk.TypesInfo.Implicits[cl]; obj != nil {
+				ren[obj] = nn
+			}
+		}
+		return true
+	})
 }
 
 // simpleExpr: evaluating the expression has no side effect and no dependence
@@ -177,6 +276,9 @@ func (in *inliner) renderBody(fd *ast.FuncDecl, ren map[types.Object]string, ret
 					return false
 				}
 			case *ast.Ident:
+				if nn, ok := in.guardRen[y]; ok {
+					edits = append(edits, edit{off(y.Pos()), off(y.End()), nn})
+				}
 				if obj := in.pk.TypesInfo.Uses[y]; obj != nil {
 					if nn, ok := ren[obj]; ok {
 						edits = append(edits, edit{off(y.Pos()), off(y.End()), nn})
@@ -445,6 +547,7 @@ func (in *inliner) inlineBlock(fd *ast.FuncDecl, recv ast.Expr, args []ast.Expr,
 			return sb2.String()
 		}
 	}
+	in.localRen(fd, id, ren)
 	body := in.renderBody(fd, ren, retFn, fmt.Sprintf("_kx%d", id))
 	if body == "" || strings.Contains(body, "kxINLINE_ERROR") {
 		return "", false
@@ -508,6 +611,8 @@ func (in *inliner) funcLitFor(fd *ast.FuncDecl, recv ast.Expr) (string, bool) {
 			pre = fmt.Sprintf("var %s %s = %s\n_ = %s\n", nn, p.typ, a, nn)
 		}
 	}
+	in.counter++
+	in.localRen(fd, in.counter, ren)
 	body := in.renderBody(fd, ren, nil, fmt.Sprintf("_kx%d", in.counter))
 	if body == "" {
 		return "", false
@@ -543,7 +648,7 @@ func (in *inliner) eligibleCallee(fd *ast.FuncDecl) bool {
 
 // normalizePackage rewrites the files of one package; returns new contents by file name.
 func normalizePackage(pk *packages.Package, known map[string]bool, srcOf func(string) []byte) (map[string][]byte, []string) {
-	in := &inliner{src: srcOf, pk: pk, fset: pk.Fset, decls: map[types.Object]*ast.FuncDecl{}, changed: map[*ast.File]bool{}}
+	in := &inliner{src: srcOf, pk: pk, fset: pk.Fset, decls: map[types.Object]*ast.FuncDecl{}, changed: map[*ast.File]bool{}, guardRen: map[*ast.Ident]string{}}
 	for _, f := range pk.Syntax {
 		for _, d := range f.Decls {
 			fd, ok := d.(*ast.FuncDecl)
@@ -914,7 +1019,22 @@ func normalizePackage(pk *packages.Package, known map[string]bool, srcOf func(st
 				})
 			}
 			visitStmts = func(list []ast.Stmt, inLit bool) {
-				for _, s := range list {
+				for i := 0; i < len(list); i++ {
+					s := list[i]
+					// `x, ok := helper(...)` directly followed by `if !ok {A}` (or err != nil, ...): the decision
+					// is spliced in at every return of the helper
+					if i+1 < len(list) {
+						if as, isAs := s.(*ast.AssignStmt); isAs {
+							if iff, isIf := list[i+1].(*ast.IfStmt); isIf {
+								if txt, ok := in.inlineAssignIf(as, iff, src, off); ok && !covered(off(as.Pos()), off(iff.End())) {
+									edits = append(edits, edit{off(as.Pos()), off(iff.End()), txt})
+									in.log = append(in.log, fmt.Sprintf("%s: inlined a helper with its status test in %s", filepath.Base(fname), caller.Name.Name))
+									i++
+									continue
+								}
+							}
+						}
+					}
 					visitStmt(s, inLit)
 				}
 			}
@@ -1488,6 +1608,19 @@ func (in *inliner) genCond(e ast.Expr, t, f condJump, typed bool, text func(ast.
 		return "", false // a helper call in a non-boolean position of the condition: left to the hoisting rule
 	}
 	txt := text(e)
+	// literal results of a predicate: the jump is unconditional
+	switch strings.TrimSpace(txt) {
+	case "true":
+		if t.fall {
+			return "", true
+		}
+		return t.stmt() + "\n", true
+	case "false":
+		if f.fall {
+			return "", true
+		}
+		return f.stmt() + "\n", true
+	}
 	switch {
 	case t.fall && f.fall:
 		return "", false
@@ -1529,8 +1662,36 @@ func (in *inliner) inlineIfCond(x *ast.IfStmt, src []byte, off func(token.Pos) i
 		return "", false
 	}
 	var sb strings.Builder
-	fmt.Fprintf(&sb, "{\n%s:\nswitch {\ndefault:\n%s:\nswitch {\ndefault:\n%s{\n%s\n}\nbreak %s\n}\n{\n%s\n}\n}\n}", end, fl, cond, thenTxt, end, elseTxt)
+	fmt.Fprintf(&sb, "{\n%s:\nswitch {\ndefault:\n%s:\nswitch {\ndefault:\n%s{\n%s\n}\nbreak %s\n}\n{\n%s\n}\n}\n", end, fl, cond, thenTxt, end, elseTxt)
+	if x.Else != nil && terminates(x.Body.List) && terminates([]ast.Stmt{x.Else}) {
+		// both branches leave the function: keep the statement terminating for the compiler (unreachable)
+		sb.WriteString("panic(\"unreachable\")\n")
+	}
+	sb.WriteString("}")
 	return sb.String(), true
+}
+
+// terminates: the statement list ends in a statement after which control
+// cannot continue (return, panic, or an if/else or block made of such).
+func terminates(list []ast.Stmt) bool {
+	if len(list) == 0 {
+		return false
+	}
+	switch x := list[len(list)-1].(type) {
+	case *ast.ReturnStmt:
+		return true
+	case *ast.ExprStmt:
+		if c, ok := x.X.(*ast.CallExpr); ok {
+			if id, ok := c.Fun.(*ast.Ident); ok && id.Name == "panic" {
+				return true
+			}
+		}
+	case *ast.BlockStmt:
+		return terminates(x.List)
+	case *ast.IfStmt:
+		return x.Else != nil && terminates(x.Body.List) && terminates([]ast.Stmt{x.Else})
+	}
+	return false
 }
 
 // inlineBlockWith is inlineBlock with a caller-supplied treatment of returns;
@@ -1586,6 +1747,7 @@ func (in *inliner) inlineBlockWith(fd *ast.FuncDecl, recv ast.Expr, args []ast.E
 		}
 	}
 	label := fmt.Sprintf("kxL%d", id)
+	in.localRen(fd, id, ren)
 	body := in.renderBody(fd, ren, mk(label, named), fmt.Sprintf("_kx%d", id))
 	if body == "" || strings.Contains(body, "kxINLINE_ERROR") {
 		return "", false
@@ -1597,4 +1759,184 @@ func (in *inliner) inlineBlockWith(fd *ast.FuncDecl, recv ast.Expr, args []ast.E
 	}
 	fmt.Fprintf(&sb, "%s:\nswitch {\ndefault:\n%s\n}\n}\n}\n", label, body)
 	return sb.String(), true
+}
+
+// hasLabels: the statements declare labels (they cannot be duplicated).
+func hasLabels(list []ast.Stmt) bool {
+	found := false
+	for _, s := range list {
+		ast.Inspect(s, func(n ast.Node) bool {
+			if _, ok := n.(*ast.LabeledStmt); ok {
+				found = true
+			}
+			if _, ok := n.(*ast.FuncLit); ok {
+				return false
+			}
+			return true
+		})
+	}
+	return found
+}
+
+// inlineAssignIf handles
+//
+//	lhs... := helper(args)       (or =)
+//	if <test of one lhs variable> {A} else {B}
+//
+// where the test is `v`, `!v`, `v == nil`, `v != nil`, `v == true/false`.  The helper's body is
+// spliced in; every `return e...` becomes the assignment followed by the branch the test selects
+// when the returned expression is a literal true/false/nil, and by the whole if statement
+// otherwise.  No status temporary has to be merged and re-tested.
+func (in *inliner) inlineAssignIf(as *ast.AssignStmt, iff *ast.IfStmt, src []byte, off func(token.Pos) int) (string, bool) {
+	if len(as.Rhs) != 1 || iff.Init != nil || (as.Tok != token.DEFINE && as.Tok != token.ASSIGN) {
+		return "", false
+	}
+	call, ok := as.Rhs[0].(*ast.CallExpr)
+	if !ok {
+		return "", false
+	}
+	fd, _, recv := in.calleeOf(call)
+	if fd == nil || bodyHas(fd.Body, isDefer) {
+		return "", false
+	}
+	_, results, _ := in.params(fd)
+	if len(results) != len(as.Lhs) || len(results) < 1 {
+		return "", false
+	}
+	var lhs []string
+	for _, l := range as.Lhs {
+		id, ok := l.(*ast.Ident)
+		if !ok {
+			return "", false
+		}
+		lhs = append(lhs, id.Name)
+	}
+	// the tested variable
+	cond := iff.Cond
+	neg := false
+	for {
+		if pe, ok := cond.(*ast.ParenExpr); ok {
+			cond = pe.X
+			continue
+		}
+		if ue, ok := cond.(*ast.UnaryExpr); ok && ue.Op == token.NOT {
+			cond, neg = ue.X, !neg
+			continue
+		}
+		break
+	}
+	varName, cmpLit := "", ""
+	switch c := cond.(type) {
+	case *ast.Ident:
+		varName, cmpLit = c.Name, "true"
+	case *ast.BinaryExpr:
+		if c.Op != token.EQL && c.Op != token.NEQ {
+			return "", false
+		}
+		x, okx := c.X.(*ast.Ident)
+		y, oky := c.Y.(*ast.Ident)
+		if !okx || !oky {
+			return "", false
+		}
+		if x.Name == "nil" || x.Name == "true" || x.Name == "false" {
+			x, y = y, x
+		}
+		if y.Name != "nil" && y.Name != "true" && y.Name != "false" {
+			return "", false
+		}
+		varName, cmpLit = x.Name, y.Name
+		if c.Op == token.NEQ {
+			neg = !neg
+		}
+	default:
+		return "", false
+	}
+	idx := -1
+	for i, l := range lhs {
+		if l == varName && l != "_" {
+			idx = i
+		}
+	}
+	if idx < 0 {
+		return "", false
+	}
+	var elseList []ast.Stmt
+	elseTxt := ""
+	if iff.Else != nil {
+		switch e := iff.Else.(type) {
+		case *ast.BlockStmt:
+			elseList = e.List
+			elseTxt = string(src[off(e.Lbrace)+1 : off(e.Rbrace)])
+		default:
+			elseList = []ast.Stmt{e}
+			elseTxt = string(src[off(e.Pos()):off(e.End())])
+		}
+	}
+	if hasUnlabeledBreak(iff.Body.List) || hasUnlabeledBreak(elseList) || hasLabels(iff.Body.List) || hasLabels(elseList) {
+		return "", false
+	}
+	// helper calls inside the branches would be duplicated before being inlined themselves: fine (next round)
+	thenTxt := string(src[off(iff.Body.Lbrace)+1 : off(iff.Body.Rbrace)])
+	ifTxt := string(src[off(iff.Pos()):off(iff.End())])
+	var pre strings.Builder
+	if as.Tok == token.DEFINE {
+		for i, l := range as.Lhs {
+			id := l.(*ast.Ident)
+			if id.Name == "_" {
+				continue
+			}
+			if in.pk.TypesInfo.Defs[id] != nil {
+				fmt.Fprintf(&pre, "var %s %s\n_ = %s\n", id.Name, results[i].typ, id.Name)
+			}
+		}
+	}
+	okAll := true
+	blk, ok := in.inlineBlockWith(fd, recv, call.Args, func(label string, named []string) func([]string) string {
+		return func(rs []string) string {
+			if len(rs) == 0 && len(named) == len(lhs) {
+				rs = named
+			}
+			if len(rs) != len(lhs) {
+				okAll = false
+				return "kxINLINE_ERROR"
+			}
+			var sb strings.Builder
+			// evaluate all results first (they may mention the assigned variables), then assign
+			var tmps []string
+			for i, r := range rs {
+				in.counter++
+				t := fmt.Sprintf("kxR%d", in.counter)
+				tmps = append(tmps, t)
+				fmt.Fprintf(&sb, "var %s %s = %s\n_ = %s\n", t, results[i].typ, r, t)
+			}
+			for i, l := range lhs {
+				if l != "_" {
+					fmt.Fprintf(&sb, "%s = %s\n", l, tmps[i])
+				}
+			}
+			lit := strings.TrimSpace(rs[idx])
+			decided, val := false, false
+			switch {
+			case (lit == "true" || lit == "false") && (cmpLit == "true" || cmpLit == "false"):
+				decided, val = true, lit == cmpLit
+			case lit == "nil" && cmpLit == "nil":
+				decided, val = true, true
+			}
+			if decided {
+				if val != neg {
+					sb.WriteString("{\n" + thenTxt + "\n}\n")
+				} else if elseTxt != "" {
+					sb.WriteString("{\n" + elseTxt + "\n}\n")
+				}
+			} else {
+				sb.WriteString(ifTxt + "\n")
+			}
+			sb.WriteString("break " + label + "\n")
+			return "{\n" + sb.String() + "}"
+		}
+	})
+	if !ok || !okAll {
+		return "", false
+	}
+	return pre.String() + blk, true
 }
